@@ -28,6 +28,7 @@ func judgeStageEnv(sc *Scenario, x *vrt.Execution) []verdict {
 				n++
 				if e.Arg != want {
 					v = append(v, verdict{"C08", "C08:stage-env-visible-elsewhere", fmt.Sprintf("%s printed %q, its own stage gives %q (another stage's env override is visible)", t.Name, e.Arg, want)})
+					v = append(v, verdict{"C09", "C09:command-sees-another-commands-environment", fmt.Sprintf("%s printed %q, the levels that define the name for this command give %q", t.Name, e.Arg, want)})
 				}
 			}
 		}
